@@ -1,10 +1,56 @@
 (* C07 — Splitting, concatenating, merging and rechunking obey the laws of chunking.
    This file contains only property theorems, each closed by `exact <lemma>` and followed by
-   Print Assumptions. *)
-From SV Require Import Model.Rows Model.SplitArray Proof.SplitArrayProof.
+   Print Assumptions.  Statements not (yet) proved are kept visible as Definitions C07_full_*. *)
+From SV Require Import Model.Rows Model.SplitArray Model.Chunk Model.Rechunker
+     Proof.SplitArrayProof Proof.ChunkProof Proof.RechunkerProof.
 
+(* split_array: refuses exactly when a row straddles; with early splitting returns the latest
+   admissible earlier time; every row entirely on one side; rows preserved in order *)
 Theorem C07_split_array_spec : forall rs t early,
   sorted rs -> Forall (fun q => 0 <= rt q) rs ->
   split_array_post rs t early (split_array rs t early).
 Proof. exact split_array_correct. Qed.
 Print Assumptions C07_split_array_spec.
+
+(* Chunk.split on any well-formed chunk: two adjacent well-formed chunks whose rows concatenate to the
+   original; CannotSplit iff not early and a row straddles the (clamped) time; no other error *)
+Theorem C07_chunk_split_spec : forall c t0 early,
+  wf c -> chunk_split_post c t0 early (chunk_split c t0 early).
+Proof. exact chunk_split_correct. Qed.
+Print Assumptions C07_chunk_split_spec.
+
+(* concatenate is the inverse of split *)
+Theorem C07_concat_split_inverse : forall c t0 early c1 c2,
+  wf c -> chunk_split c t0 early = Ok (c1, c2) ->
+  exists c', concatenate [Some c1; Some c2] false = Ok c' /\
+             cstart c' = cstart c /\ cend c' = cend c /\ crows c' = crows c /\
+             cdtype c' = cdtype c /\ ckind c' = ckind c /\ crun c' = crun c.
+Proof. exact concat_split_inverse. Qed.
+Print Assumptions C07_concat_split_inverse.
+
+(* the rechunker never fails on a valid contiguous stream (any number of chunks, any targets >= one
+   row); output is non-empty, well-formed, contiguous over the same overall range, same rows in order *)
+Theorem C07_rechunk_stream_spec : forall cs,
+  valid_stream cs ->
+  exists out, rechunk_stream cs = Ok out /\ out <> [] /\ Forall wf out /\
+    flat_map crows out = flat_map crows cs /\
+    chain (stream_start cs) out (stream_end cs).
+Proof. exact rechunk_stream_correct. Qed.
+Print Assumptions C07_rechunk_stream_spec.
+
+(* ... and it cuts only where no row is straddled *)
+Theorem C07_cuts_straddle_nothing : forall out s e,
+  Forall wf out -> chain s out e ->
+  forall pre c post, out = pre ++ c :: post -> post <> [] ->
+    ~ exists q, In q (flat_map crows out) /\ straddles q (cend c).
+Proof. exact chain_no_straddle. Qed.
+Print Assumptions C07_cuts_straddle_nothing.
+
+(* Full statements still to be proved (covered by correspondence only for now): *)
+Definition C07_full_concatenate_accepts_iff : Prop :=
+  forall cs allow, (exists c, concatenate (map Some cs) allow = Ok c) <->
+    (cs <> [] /\ (length cs = 1%nat \/
+       ((forall c, In c cs -> cdtype c = cdtype (hd (mkchunk 0 0 [] 0 0 None 0) cs)) /\
+        (allow = true \/ forall c, In c cs -> crun c = crun (hd (mkchunk 0 0 [] 0 0 None 0) cs)) /\
+        order_ok 0 cs = true /\
+        exists c, mk_chunk (stream_start cs) (stream_end cs) (flat_map crows cs) (cdtype c) (ckind c) (crun c) (ctarget c) = Ok c))).
